@@ -49,6 +49,7 @@ class FakeEzsp:
     async def getConfigurationValue(self, cfg):
         import bellows.types as t
 
+        await asyncio.sleep(0)  # a real EZSP command always yields to the event loop
         assert cfg == t.EzspConfigId.CONFIG_MULTICAST_TABLE_SIZE
         return (self._st(True), len(self.table))
 
@@ -56,6 +57,7 @@ class FakeEzsp:
         import bellows.types as t
 
         self.reads += 1
+        await asyncio.sleep(0)
         gid, ep = self.table[i]
         e = t.EmberMulticastTableEntry()
         e.multicastId = t.EmberMulticastId(gid)
@@ -64,7 +66,9 @@ class FakeEzsp:
         return (self._st(True), e)
 
     async def setMulticastTableEntry(self, idx, entry):
+        await asyncio.sleep(0)
         rec = (int(idx), int(entry.multicastId), int(entry.endpoint), int(entry.networkIndex))
+        rec += (tuple(self.table),)  # table as the NCP sees it when the write arrives
         if self.answer == "timeout":
             self.writes.append(rec + (False,))
             raise asyncio.TimeoutError()
@@ -82,8 +86,10 @@ class Ep:
 
 
 class Coordinator:
-    def __init__(self, groups):
-        self.endpoints = {0: Ep((0x9999,)), 1: Ep(groups)}
+    def __init__(self, eps):
+        self.endpoints = {0: Ep((0x9999,))}
+        for k, groups in enumerate(eps):
+            self.endpoints[k + 1] = Ep(groups)
 
 
 def fastcopy(x):
@@ -134,9 +140,10 @@ def is_ok(status):
 
 def events():
     ev = [("startup", (), "ok")]
-    for groups in ((G[0],), (G[0], G[1])):
+    # member groups per coordinator endpoint; the last one lists a group on two endpoints
+    for eps in (((G[0],),), ((G[0], G[1]),), ((G[0],), (G[0], G[1]))):
         for a in ANSWERS[:2]:
-            ev.append(("startup", groups, a))
+            ev.append(("startup", eps, a))
     for g in G:
         for a in ANSWERS:
             ev.append(("subscribe", g, a))
@@ -215,7 +222,7 @@ class World:
                 if len(w) != 1:
                     out.append(f"{tag}: expected exactly one table write, saw {w} ({kind} {val!r}); free indices in NCP: {free}")
                 else:
-                    idx, gid, ep, nwi, applied = w[0]
+                    idx, gid, ep, nwi, _tt, applied = w[0]
                     if idx not in free:
                         out.append(f"{tag}: wrote index {idx} which is in use {table_before[idx] if 0 <= idx < len(table_before) else '(out of range)'}")
                     if gid != g or ep == 0:
@@ -236,7 +243,7 @@ class World:
                 if len(w) != 1:
                     out.append(f"{tag}: expected exactly one table write, saw {w} ({kind} {val!r})")
                 else:
-                    idx, gid, ep, nwi, applied = w[0]
+                    idx, gid, ep, nwi, _tt, applied = w[0]
                     if idx != sub[g]:
                         out.append(f"{tag}: cleared index {idx}, the group lives at {sub[g]}")
                     if ep != 0:
@@ -249,32 +256,42 @@ class World:
                         out.append(f"{tag}: write timed out but call reported success")
         return out
 
-    def _startup(self, groups, ans):
+    def _startup(self, eps, ans):
         out = []
-        sub = self.ref_subscribed()
+        sub = set(self.ref_subscribed())
         free = self.ref_free()
         table_before = list(self.ezsp.table)
+        members = []
+        for groups in eps:
+            for g in groups:
+                if g not in members:
+                    members.append(g)
         self.ezsp.answer = ans
         self.ezsp.writes = []
-        kind, val = run(self.m.startup(Coordinator(groups)))
-        tag = f"startup(member_of={[hex(g) for g in groups]},{ans}) on table {table_before}"
+        kind, val = run(self.m.startup(Coordinator(eps)))
+        tag = f"startup({len(eps)},{ans}) on table {table_before}"
         if kind != "ret":
-            return [f"{tag}: {kind} {val!r}"]
-        # expected writes: one per member group that is not yet subscribed, while free indices last
-        exp = []
-        nfree = len(free)
-        for g in groups:
-            if g in sub:
-                continue
-            if nfree == 0:
-                continue
-            exp.append(g)
-            if ans == "ok":
-                nfree -= 1
-                sub[g] = None
-        got = [(gid, ep != 0, idx in free) for idx, gid, ep, nwi, applied in self.ezsp.writes]
-        if got != [(g, True, True) for g in exp]:
-            out.append(f"{tag}: table writes {self.ezsp.writes}, expected one subscribe write for each of {[hex(g) for g in exp]} into free indices {free}")
+            return [f"{tag}: call ended with {kind} {val!r}"]
+        # every write must program a member group that the NCP does not hold at that moment into an index
+        # that is free at that moment (order and batching are the implementation's business)
+        for idx, gid, ep, nwi, table_then, applied in self.ezsp.writes:
+            held = {g for g, e in table_then if e != 0}
+            free_then = [i for i, (g, e) in enumerate(table_then) if e == 0]
+            if gid not in members or ep == 0:
+                out.append(f"{tag}: wrote entry (id={gid:#06x}, endpoint={ep}) which is not a subscription of a member group")
+            elif gid in held:
+                out.append(f"{tag}: programmed group into a second index while the NCP already holds it")
+            elif idx not in free_then:
+                out.append(f"{tag}: wrote index which is in use")
+        now = set(self.ref_subscribed())
+        if ans == "ok":
+            want_new = [g for g in members if g not in sub]
+            if len(now - sub) != min(len(free), len(want_new)) or not (now - sub) <= set(want_new):
+                out.append(f"{tag}: member groups subscribed after start-up {sorted(now - sub)}, expected {min(len(free), len(want_new))} of {want_new}")
+        elif now != sub:
+            out.append(f"{tag}: every write was rejected but the NCP table changed")
+        if not sub <= now:
+            out.append(f"{tag}: start-up removed a subscription")
         return out
 
     def apply(self, i):
@@ -285,6 +302,7 @@ class World:
             self.viol = self._single(op, g, ans)
         self._normalise()
         self.viol += [f"after {op}({'G' if op != 'startup' else len(g)},{ans}) on table: {m}" for m in self.state_invariant()]
+        # nothing may be left running in the background between operations (checked by run(): tasks are done)
 
     # -- secondary oracle on the private book-keeping -------------------------------
     def host_view(self):
@@ -506,7 +524,9 @@ def replay(data) -> int:
     w = World([tuple(x) for x in data["table"]], data.get("family", "ember"), data.get("normalise", True))
     bad = 0
     for ev in data["events"]:
-        ev = (ev[0], tuple(ev[1]) if isinstance(ev[1], list) else ev[1], ev[2])
+        def tup(x):
+            return tuple(tup(y) for y in x) if isinstance(x, list) else x
+        ev = (ev[0], tup(ev[1]), ev[2])
         w.apply(EVENTS.index(ev))
         print(ev, "-> writes", w.ezsp.writes, "table", w.ezsp.table, "host", w.host_view(), w.viol)
         bad += len(w.viol)
